@@ -37,7 +37,6 @@ const (
 	vfHexUpper              // digits above 9 in upper case
 	vfHyphen                // "twenty-one" instead of "twenty one"
 	vfMinus                 // "minus" instead of "negative"
-	vfTabDefault0           // bare ~T / ~@T use 0 as default colnum -- NOT accepted (doc and CL say 1); placeholder, never consulted
 )
 
 // Mutations of the reference used by the oracle-sensitivity self-test (S6).
@@ -195,7 +194,6 @@ func (p *parser) directive() *node {
 	p.pos++ // ~
 	// prefix parameters
 	expectParam := true
-	sawAny := false
 	for p.pos < len(p.s) {
 		b := p.s[p.pos]
 		switch {
@@ -204,7 +202,6 @@ func (p *parser) directive() *node {
 				n.params = append(n.params, param{})
 			}
 			expectParam = true
-			sawAny = true
 			p.pos++
 			continue
 		case !expectParam:
@@ -217,19 +214,16 @@ func (p *parser) directive() *node {
 			p.pos += size
 			n.params = append(n.params, param{kind: 'c', c: c})
 			expectParam = false
-			sawAny = true
 			continue
 		case b == 'v' || b == 'V':
 			p.pos++
 			n.params = append(n.params, param{kind: 'v'})
 			expectParam = false
-			sawAny = true
 			continue
 		case b == '#':
 			p.pos++
 			n.params = append(n.params, param{kind: '#'})
 			expectParam = false
-			sawAny = true
 			continue
 		case b == '-' || b == '+' || ('0' <= b && b <= '9'):
 			start := p.pos
@@ -243,12 +237,10 @@ func (p *parser) directive() *node {
 			}
 			n.params = append(n.params, param{kind: 'n', n: v})
 			expectParam = false
-			sawAny = true
 			continue
 		}
 		break
 	}
-	_ = sawAny
 	// a trailing comma means a trailing omitted parameter: harmless.
 	for p.pos < len(p.s) {
 		b := p.s[p.pos]
@@ -627,13 +619,8 @@ func (r *Ref) one(n *node, c *actx, out *[]byte) {
 		case refMutOrdinalTens:
 			mut = mutOrdinalTens
 		}
-		hyphen := false
-		abs := new(big.Int).Abs(v.I)
-		if m := new(big.Int).Mod(abs, big.NewInt(100)); true {
-			// the hyphen question only arises when some group has tens >= 2 and units > 0
-			hyphen = needsHyphen(abs) && r.flag(vfHyphen)
-			_ = m
-		}
+		// the hyphen question only arises when some group has tens >= 2 and units > 0
+		hyphen := needsHyphen(new(big.Int).Abs(v.I)) && r.flag(vfHyphen)
 		neg := "negative"
 		if v.I.Sign() < 0 && r.flag(vfMinus) {
 			neg = "minus"
